@@ -25,7 +25,7 @@ ASSUME \A vs \in VoteMaps : Winner(vs) # "none" => Count(vs, Winner(vs)) >= MIN
 \* ---- behaviours for the real service
 P(i) == "p" \o ToString(i)
 Rnd(S) == RandomElement(S)
-SockSet == IF MODE = "dual" THEN {"X4", "Y4", "X6", "Y6", "L4"} ELSE {"X4", "Y4", "L4"}
+SockSet == IF MODE = "dual" THEN {"X4", "Y4", "X6", "Y6", "L4"} ELSE {"X4", "Y4", "Z4", "L4"}
 Sim == /\ DEPTH > 0 /\ UNCHANGED <<votes, local, seq, announced>>
        /\ IF hist = <<>> THEN hist' = <<[o |-> "reset", mode |-> MODE, vote_min |-> Rnd({2, 3}), vote_dur |-> 120]>>
           ELSE IF Len(hist) <= 7 THEN hist' = Append(hist, [o |-> "established", rec |-> P(Len(hist)) \o ":1:" \o (IF MODE = "dual" THEN "both" ELSE "v4"), dir |-> Rnd({"Out", "Out", "Out", "In"})])
